@@ -15,8 +15,8 @@ use crate::{
 
 use super::{
     elem_name::{
-        ACCESS_MODE, CACHEABLE, ENDIANNESS, POLLING_TIME, P_INVALIDATOR, P_SELECTED,
-        REPRESENTATION, SIGN, STREAMABLE, STRUCT_ENTRY, STRUCT_REG, UNIT,
+        ACCESS_MODE, CACHEABLE, ENDIANNESS, POLLING_TIME, P_SELECTED, REPRESENTATION, SIGN,
+        STREAMABLE, STRUCT_ENTRY, STRUCT_REG, UNIT,
     },
     xml, Parse,
 };
@@ -107,7 +107,7 @@ macro_rules! merge_impl {
     };
 
     ($lhs:ident, $rhs:ident, $name:ident, vec) => {
-        if $rhs.$name.is_empty() {
+        if !$rhs.$name.is_empty() {
             $lhs.$name = $rhs.$name.clone();
         }
     };
@@ -181,10 +181,10 @@ impl Parse for StructEntryNode {
         debug_assert_eq!(node.tag_name(), STRUCT_ENTRY);
 
         let attr_base = node.parse(node_builder, value_builder, cache_builder);
-        let elem_base = node.parse(node_builder, value_builder, cache_builder);
+        let mut elem_base: NodeElementBase = node.parse(node_builder, value_builder, cache_builder);
 
-        let p_invalidators =
-            node.parse_while(P_INVALIDATOR, node_builder, value_builder, cache_builder);
+        // `NodeElementBase::parse` has already consumed the `pInvalidator` elements of the entry.
+        let p_invalidators = std::mem::take(&mut elem_base.p_invalidators);
         let access_mode = node
             .parse_if(ACCESS_MODE, node_builder, value_builder, cache_builder)
             .unwrap_or(AccessMode::RO);
@@ -302,6 +302,42 @@ mod tests {
         assert_eq!(
             masked_int_reg1.register_base().access_mode(),
             AccessMode::RO,
+        );
+    }
+
+    #[test]
+    fn test_struct_entry_invalidators() {
+        let xml = r#"
+            <StructReg Comment="Struct Reg Comment">
+                <Address>0x10000</Address>
+                <Length>4</Length>
+                <pPort>Device</pPort>
+                <pInvalidator>Invalidator0</pInvalidator>
+
+                <StructEntry Name="StructEntry0">
+                    <pInvalidator>Invalidator1</pInvalidator>
+                    <Bit>0</Bit>
+                </StructEntry>
+
+                <StructEntry Name="StructEntry1">
+                    <Bit>1</Bit>
+                </StructEntry>
+
+            </StructReg>
+            "#;
+        let (node, mut node_builder, _, mut cache_builder): (StructRegNode, _, _, _) =
+            parse_default(xml);
+        let masked_int_regs: Vec<_> = node.into_masked_int_regs(&mut cache_builder);
+
+        // The entry's own invalidators override the ones of the structure.
+        assert_eq!(
+            masked_int_regs[0].register_base().p_invalidators(),
+            &[node_builder.get_or_intern("Invalidator1")]
+        );
+        // The entry inherits the invalidators of the structure.
+        assert_eq!(
+            masked_int_regs[1].register_base().p_invalidators(),
+            &[node_builder.get_or_intern("Invalidator0")]
         );
     }
 }
